@@ -2,6 +2,7 @@ package main
 
 import (
 	"fmt"
+	"strconv"
 	"go/ast"
 	"go/types"
 	"strings"
@@ -291,7 +292,7 @@ func (fr *Frame) applyContract(fc *FuncContract, key string, sig *types.Signatur
 	floor := fmt.Sprintf("(+ %s %d)", g.curBase, g.allocN)
 	env.freshFloor = floor
 	// fire anchored asserts "before call"
-	fr.anchor("before call "+site, c)
+	fr.anchor("before call "+site, c, nil)
 	for i, rq := range fc.Requires {
 		label := rq.Label
 		if label == "" {
@@ -354,12 +355,12 @@ func (fr *Frame) applyContract(fc *FuncContract, key string, sig *types.Signatur
 	if (fc.Extern || fc.AssumeOnly) && g.dry == 0 {
 		g.obls = append(g.obls, &Obligation{Name: fr.oname("cover@"+site, "after"), Kind: "cover", Func: g.fnName, Prefix: g.sc.Len(), Reach: c.reach, Goal: "true", Cover: true})
 	}
-	fr.anchor("after call "+site, c)
+	fr.anchor("after call "+site, c, res)
 	return res
 }
 
 // anchor fires "assert/assume ... at <anchor>" clauses of the function under verification.
-func (fr *Frame) anchor(name string, c *blockCtx) {
+func (fr *Frame) anchor(name string, c *blockCtx, results []Term) {
 	g := fr.g
 	if fr.contract == nil {
 		return
@@ -370,7 +371,14 @@ func (fr *Frame) anchor(name string, c *blockCtx) {
 		}
 		env := fr.baseEnv(c.st)
 		at := fr.curBlock
-		env.resolve = func(n string) (Term, Ty, bool) { return fr.resolveLocalAt(n, at, c.st) }
+		env.resolve = func(n string) (Term, Ty, bool) {
+			if strings.HasPrefix(n, "$r") {
+				if k, err := strconv.Atoi(n[2:]); err == nil && k < len(results) {
+					return results[k], Ty{Spec: results[k].Sort}, true
+				}
+			}
+			return fr.resolveLocalAt(n, at, c.st)
+		}
 		f := env.trBool(a.C.E)
 		label := a.C.Label
 		if label == "" {
